@@ -88,7 +88,7 @@ def gen_cases(tier, seed):
     # every registered code x R bit (+ unknown codes); header fields from the boundary sets
     for code in codes + [9999991, 0xFFFFFF, 0]:
         for R in (0, 1):
-            reps = 2 if tier == "thorough" else 1
+            reps = 12 if tier == "thorough" else 1
             for _ in range(reps):
                 flags = (0x80 if R else 0) | rng.choice([0x00, 0x40, 0x20, 0x10, 0x70, 0x0F])
                 h = hdr_spec(rng.choice(b8), flags, code, rng.choice(b32), rng.choice(b32), rng.choice(b32))
@@ -102,7 +102,7 @@ def gen_cases(tier, seed):
         for x in b32:
             cases.append({"hdr": hdr_spec(1, 0x80, code, x, x ^ 0xFFFF, (x + 1) & 0xFFFFFFFF), "avps": [], "tag": "header"})
     # long AVP sequences, deep nesting, big messages
-    for _ in range(300 if tier == "thorough" else 40):
+    for _ in range(3000 if tier == "thorough" else 40):
         cases.append({"hdr": hdr_spec(1, rng.choice([0x80, 0x00, 0xC0]), rng.choice(codes + [9999991]), 4, rng.getrandbits(32), rng.getrandbits(32)),
                       "avps": avps(rng.randint(10, 40), 6), "tag": "long"})
     ostr = [e for e in entries if codec.kind_of(e[2]) == "bytes"][0]
